@@ -84,7 +84,7 @@ def gen_storage_case(rng, kind):
     writers); with two objects the conflicts interleave, so that the process-wide `_unresolvable`
     cache filled by one class is in place when the other class conflicts"""
     noid = rng.choice([1, 1, 2])
-    oids = rng.sample([1, 7, 300], noid)
+    oids = rng.sample([1, 7, 300, 65535, 65536, 0x00ff00ff00ff00ff, 2 ** 63 + 9, 2 ** 64 - 2], noid)
     klass = {oid: rng.choice(RECORD_CLASSES) for oid in oids}
 
     written = {oid: [] for oid in oids}
@@ -358,7 +358,8 @@ class World:
         self.storage, self.base = L.make_storage(case['kind'], tmp, tag)
         self.rec = L.Recorder(self.storage, L.tid_reader(self.storage))
         dbs = {}
-        self.db = ZODB.DB(self.storage, databases=dbs, database_name='main')
+        opts = {k: v for k, v in (('pool_size', L.BUILD.get('pool')), ('cache_size', L.BUILD.get('cache'))) if v is not None}
+        self.db = ZODB.DB(self.storage, databases=dbs, database_name='main', **opts)
         self.db2 = ZODB.DB(MappingStorage('other'), databases=dbs, database_name='other')
         tm = transaction.TransactionManager()
         conn = self.db.open(tm)
@@ -498,6 +499,7 @@ def oracle_db(res):
 
 # =============================================================================== running
 def run_real(case, tmp, tag):
+    L.BUILD = case.get('build') or {}
     if case['section'] in ('storage', 'undo'):
         ops, obs = c03.run_storage_real(case, tmp, tag)
         return dict(ops=ops, obs=obs)
@@ -505,6 +507,7 @@ def run_real(case, tmp, tag):
 
 
 def run_real_safe(case, tmp, tag):
+    cancel = c03.watchdog(240)
     try:
         return run_real(case, tmp, tag)
     except (InfraError, KeyboardInterrupt):
@@ -512,6 +515,8 @@ def run_real_safe(case, tmp, tag):
     except BaseException as e:  # noqa: B902
         import traceback
         return dict(ops=[], obs=[], crash=(type(e).__name__, traceback.format_exc()[-1200:]))
+    finally:
+        cancel()
 
 
 def judge(case, res):
@@ -635,6 +640,9 @@ def main(argv=None):
         for kind in KINDS[:3] + HEX_KINDS:
             for _ in range(n_db if kind[:3] != 'hex' else n_db // 2):
                 cases.append(gen_db_case(ck.rng, kind))
+    for c in cases:
+        if 'build' not in c and not ck.replay_path:
+            c['build'] = c03.gen_build(ck.rng)
     results = run_all(ck, cases)
     lines, spans = [], []
     for case, res in zip(cases, results):
